@@ -113,7 +113,7 @@ def finalize(m: dict, tier: str) -> list[str]:
         "compact:canonical", "compact:overflow", "compact:negative", "compact:round-down", "compact:representable-target",
         "retarget:lower-clamp", "retarget:upper-clamp", "retarget:unclamped", "retarget:negative-timespan",
         "retarget:product-wraps", "retarget:limit-hit", "retarget:true-powlimit",
-        "work:valid", "work:core-zero", "work:chain",
+        "work:valid", "work:core-zero", "work:chain", "retarget:window:period-end",
     ]
     for k in need_classes:
         if not c.get(k):
@@ -816,6 +816,40 @@ def _bits_classes(rng):
     ]
 
 
+def _retarget_window(ctx: Ctx, P: _PowLib, rng) -> None:
+    """retarget_first_height against GetNextWorkRequired: the window of a period ending at h (the next height a multiple of
+    2016) is measured from h - 2015. Every height of the first 120 periods, then periods far beyond today's chain."""
+    f = getattr(P.pw, "retarget_first_height", None)
+    if f is None:
+        ctx.stat("retarget-window:function-absent")
+        return
+    heights = list(range(0, 2016 * (120 if ctx.tier == "quick" else 600)))
+    for _ in range(4000):
+        k = rng.choice([rng.randrange(1, 2**16), rng.randrange(1, 2**40), rng.randrange(2**20, 2**21)])
+        heights += [2016 * k - 1 + d for d in (-2016, -2, -1, 0, 1, 2, 2015, 2016)]
+    for h in heights:
+        o = outcome(f, h)
+        boundary = (h + 1) % 2016 == 0
+        ctx.mon("retarget-window-vs-core")
+        case = {"last_height": h}
+        if o[0] == "raise":
+            if not is_lib_exc(o[1]):
+                ctx.violation(f"retarget-window:foreign-exception:{type(o[1]).__name__}", f"retarget_first_height({h}) raised {o[1]!r}", case)
+            elif boundary:
+                ctx.violation("retarget-window-refused-at-a-period-end", f"retarget_first_height({h}) raised {o[1]!r}; Core measures from {h - 2015}", case)
+            else:
+                ctx.stats["retarget-window:not-a-period-end-refused"] += 1
+            continue
+        if o[1] != h - 2015:
+            ctx.violation("retarget-window-differs-from-core", f"retarget_first_height({h}) = {o[1]!r}; GetNextWorkRequired measures from nHeight - 2015 = {h - 2015}", case)
+        if boundary:
+            ctx.classes["retarget:window:period-end"] += 1
+        else:
+            ctx.stats["retarget-window:not-a-period-end-answered(not judged)"] += 1
+    ctx.bulk("retarget:window", len(heights))
+    ctx.exhaustive.append(f"retarget_first_height: every height below {heights[-32001] + 1 if len(heights) > 32000 else 0}")
+
+
 def shard_retarget(ctx: Ctx) -> None:
     selftest_arith(ctx)
     if ctx.inconclusive:
@@ -825,6 +859,7 @@ def shard_retarget(ctx: Ctx) -> None:
     rng = ctx.rng
     limits = [("mainnet", None, ra.MAINNET_POW_LIMIT), ("regtest", bytes.fromhex("207fffff"), ra.REGTEST_POW_LIMIT),
               ("signet", bytes.fromhex("1e0377ae"), ra.SIGNET_POW_LIMIT)]
+    _retarget_window(ctx, P, rng)
     rounds = 16000 if ctx.tier == "quick" else 400000
     for rnd in range(rounds):
         if ctx.out_of_time():
